@@ -106,76 +106,47 @@ class PageFeatureProcessor:
             and self._should_show_element(document.rtf_page.page_source, page)
         )
 
-        footnote_as_table_on_last = (
-            document.rtf_footnote
-            and document.rtf_footnote.text
-            and getattr(document.rtf_footnote, "as_table", True)
-            and document.rtf_page.page_footnote in ("last", "all")
-        )
-        source_as_table_on_last = (
-            document.rtf_source
-            and document.rtf_source.text
-            and getattr(document.rtf_source, "as_table", False)
-            and document.rtf_page.page_source in ("last", "all")
-        )
-
         # 4. Bottom Border Logic
+        # The closing border goes on the last *table* row of this page: the
+        # source or footnote row when it is rendered as a table on this page,
+        # otherwise the last data row.
         if not page.is_last_page:
             # Not last page: use BODY border_last
+            border_style = None
             if document.rtf_body.border_last:
                 border_style = (
                     document.rtf_body.border_last[0][0]
                     if isinstance(document.rtf_body.border_last, list)
                     else document.rtf_body.border_last
                 )
-
-                if not (has_footnote_on_page or has_source_on_page):
-                    # Apply to last data row
-                    for col_idx in range(page_df_width):
-                        page_attrs = self._apply_border_to_cell(
-                            page_attrs,
-                            page_df_height - 1,
-                            col_idx,
-                            "bottom",
-                            border_style,
-                            page_shape,
-                        )
-                else:
-                    # Apply to component
-                    self._apply_footnote_source_borders(
-                        document,
-                        page,
-                        has_footnote_on_page,
-                        has_source_on_page,
-                        border_style,
-                    )
         else:
             # Last page: use PAGE border_last
-            if document.rtf_page.border_last:
-                # Only if this is truly the end (not just last page of a section,
-                # but for now we assume 1 section or last section)
-                # The original code checked `page_info["end_row"] == total_rows - 1`.
-                # Here we rely on `is_last_page` flag which comes from strategy.
+            border_style = document.rtf_page.border_last
 
-                if not (footnote_as_table_on_last or source_as_table_on_last):
-                    # Apply to last data row
-                    for col_idx in range(page_df_width):
-                        page_attrs = self._apply_border_to_cell(
-                            page_attrs,
-                            page_df_height - 1,
-                            col_idx,
-                            "bottom",
-                            document.rtf_page.border_last,
-                            page_shape,
-                        )
-                else:
-                    # Apply to component
-                    self._apply_footnote_source_borders(
-                        document,
-                        page,
-                        has_footnote_on_page,
-                        has_source_on_page,
-                        document.rtf_page.border_last,
+        if border_style:
+            footnote_table_on_page = has_footnote_on_page and getattr(
+                document.rtf_footnote, "as_table", True
+            )
+            source_table_on_page = has_source_on_page and getattr(
+                document.rtf_source, "as_table", False
+            )
+            if footnote_table_on_page or source_table_on_page:
+                self._apply_footnote_source_borders(
+                    document,
+                    page,
+                    has_footnote_on_page,
+                    has_source_on_page,
+                    border_style,
+                )
+            else:
+                for col_idx in range(page_df_width):
+                    page_attrs = self._apply_border_to_cell(
+                        page_attrs,
+                        page_df_height - 1,
+                        col_idx,
+                        "bottom",
+                        border_style,
+                        page_shape,
                     )
 
         return page_attrs
